@@ -35,6 +35,9 @@ func propertyOfInvariant(v string) (string, string) {
 func (r *run) monitor(events []string, st *scheduler.VerifState, dump string) {
 	for _, v := range st.InvariantViolation {
 		prop, name := propertyOfInvariant(v)
+		if r.onlyProp != "" && prop != r.onlyProp {
+			continue // searching for a failing input of one particular property
+		}
 		r.failf("violation", prop, name, "invariant violated on the real scheduler state: %s", v)
 		return
 	}
@@ -89,6 +92,11 @@ func (r *run) monitor(events []string, st *scheduler.VerifState, dump string) {
 				r.flags["done"] = true
 				if stage != 4 {
 					r.failf("violation", "C02", "C02.at_most_one_done", "client %d: final message with stage %d", c, stage)
+				}
+				if kv["code"] == "1" && kv["tok"] == "0" && !m.cancelled {
+					// CANCELED is only produced for a task whose last operation has no waiting
+					// clients (operator kills in this harness never use that code)
+					r.failf("violation", "C03", "C03.leaver_harmless", "client %d is attached to operation %d but was told that the task was cancelled because it no longer has any waiting clients", c, op)
 				}
 				payload := kv["code"] + "/" + kv["tok"]
 				tok, _ := strconv.Atoi(kv["tok"])
